@@ -173,7 +173,9 @@ class C03(core.Prop):
             for (a, b), o in zip(inp['edges'], inp['orders']):
                 meta.add_edge(a, b, order=o)
             R = M.resolve.MoleculeResolver
-            res = R.__new__(R)
+            # through the real constructor (whatever it initialises exists), then put into the state in which
+            # resolve_disconnected_molecule leaves it
+            res = R(nx.Graph(), [{}], last_all_atom=not shape.get('coarse'), legacy=legacy)
             res.meta_graph, res.molecule, res.legacy = meta, mol, legacy
             res.edges_from_bonding_descrpt(all_atom=not shape.get('coarse'))
             bonds = [[a, b, d.get('order'), list(d['bonding'])] for a, b, d in mol.edges(data=True)]
